@@ -8,6 +8,7 @@ PKG = "internal/dnsforward"
 FILES01 = ["zz_verif_common_test.go", "zz_verif_c0102_test.go", "zz_verif_c01_test.go"]
 FILES02 = ["zz_verif_common_test.go", "zz_verif_c0102_test.go", "zz_verif_c01_test.go", "zz_verif_c02_test.go"]
 SHARDS = 6
+EXTRA_ENV = {}      # set by a check module: extra environment of its replay runs
 TLC_WORKERS = 6
 
 
@@ -52,6 +53,7 @@ def go_replay(ctx, test, files, vin, vout, shards=SHARDS, timeout=1500, settle_m
     # settle_ms bounds the wait for a reconfiguration of a live server to take effect
     env = {"VERIF_IN": vin, "VERIF_OUT": vout, "VERIF_SHARDS": str(shards), "VERIF_WORK": ctx.path("gowork"),
            "VERIF_SETTLE_MS": str(settle_ms)}
+    env.update(EXTRA_ENV)
     os.makedirs(ctx.path("gowork"), exist_ok=True)
     rc, out = ctx.go_test(PKG, files, "^%s$" % test, env=env, timeout=timeout)
     rows = vlib.read_ndjson(vout)
